@@ -1,5 +1,5 @@
 /-
-Model of zygo/lexer.go (as it is after the proposed C13 repairs): token types, lexer
+Model of zygo/lexer.go (as it is after the C13 repairs and the proposed fixes/C12-02): token types, lexer
 states, the complete lexer state, hand-written recognisers for every regular expression the
 lexer uses, the `DecodeAtom` cascade, `LexNextRune` (`step`), `Reset`, and the stream queue
 (`AddNextStream`, `PromoteNextStream`, the rune reader of `PeekNextToken`).
@@ -44,17 +44,20 @@ def TokType.toNat : TokType → Nat
 inductive Mode where
   | normal | commentLine | strLit | strEscaped | unquote | backtickString | freshAssignOrColon
   | firstFwdSlash | commentBlock | commentBlockAsterisk | builtinOperator | runeLit | runeEscaped
+  | strHexEscape | runeHexEscape     -- repo fix C12-02: the digits of \xHH \uHHHH \UHHHHHHHH
   deriving DecidableEq, Repr, Inhabited
 
 def modeNames : List String :=
   ["LexerNormal", "LexerCommentLine", "LexerStrLit", "LexerStrEscaped", "LexerUnquote",
    "LexerBacktickString", "LexerFreshAssignOrColon", "LexerFirstFwdSlash", "LexerCommentBlock",
-   "LexerCommentBlockAsterisk", "LexerBuiltinOperator", "LexerRuneLit", "LexerRuneEscaped"]
+   "LexerCommentBlockAsterisk", "LexerBuiltinOperator", "LexerRuneLit", "LexerRuneEscaped",
+   "LexerStrHexEscape", "LexerRuneHexEscape"]
 
 def Mode.toNat : Mode → Nat
   | .normal => 0 | .commentLine => 1 | .strLit => 2 | .strEscaped => 3 | .unquote => 4
   | .backtickString => 5 | .freshAssignOrColon => 6 | .firstFwdSlash => 7 | .commentBlock => 8
   | .commentBlockAsterisk => 9 | .builtinOperator => 10 | .runeLit => 11 | .runeEscaped => 12
+  | .strHexEscape => 13 | .runeHexEscape => 14
 
 structure Token where
   typ : TokType
@@ -251,6 +254,9 @@ def escapeChar (c : Char) : Option Char :=
   else if c == 'r' then some '\r'
   else if c == 'a' then some '\x07'
   else if c == 't' then some '\t'
+  else if c == 'b' then some '\x08'
+  else if c == 'f' then some '\x0c'
+  else if c == 'v' then some '\x0b'
   else if c == '\\' then some '\\'
   else if c == '"' then some '"'
   else if c == '\'' then some '\''
@@ -258,7 +264,27 @@ def escapeChar (c : Char) : Option Char :=
   else none
 
 def escapeTable : List (Nat × Nat) :=
-  [(110, 10), (114, 13), (97, 7), (116, 9), (92, 92), (34, 34), (39, 39), (35, 35)]
+  [(110, 10), (114, 13), (97, 7), (116, 9), (98, 8), (102, 12), (118, 11), (92, 92), (34, 34), (39, 39), (35, 35)]
+
+/-- `hexEscapeLen`: the number of hex digits after `\x`, `\u`, `\U` (0 = not a hex escape).
+Tie: `Generated.ReadPrint.hexEscapeLens`. -/
+def hexEscapeLen (c : Char) : Nat :=
+  if c == 'x' then 2 else if c == 'u' then 4 else if c == 'U' then 8 else 0
+
+/-- `hexDigitValue` -/
+def hexDigitValue (c : Char) : Option Nat :=
+  if '0' ≤ c && c ≤ '9' then some (c.toNat - 48)
+  else if 'a' ≤ c && c ≤ 'f' then some (c.toNat - 87)
+  else if 'A' ≤ c && c ≤ 'F' then some (c.toNat - 55)
+  else none
+
+/-- `utf8.ValidRune` on the unsigned view of an `int32` (values ≥ 2^31 are the negative ones). -/
+def validRune (v : Nat) : Bool := v < 0xD800 || (0xE000 ≤ v && v ≤ 0x10FFFF)
+
+/-- What `WriteByte(byte(v))` leaves in the buffer as seen rune-wise: an ASCII byte is that
+character; a byte ≥ 0x80 is not UTF-8 on its own and is kept as U+FFFD (how every observer of
+the buffer decodes it). Strings holding such bytes are outside the rune-level model. -/
+def byteAsRune (v : Nat) : Char := if v % 256 < 0x80 then Char.ofNat (v % 256) else '\uFFFD'
 
 def canStartSignedNumberAfter (r : Char) : Bool :=
   r.toNat == 0 || " \t\n\r([{,;:+-*/<>=!&|".toList.contains r
@@ -317,6 +343,9 @@ structure LexCore where
   linenum : Nat := 1
   priori : Nat := 0
   priorRune : List Char := List.replicate 20 '\x00'
+  escDigits : Nat := 0      -- hex digits still to come (repo fix C12-02)
+  escValue : Nat := 0       -- value of the digits read so far (the `int32` seen unsigned)
+  escByte : Bool := false   -- `\xHH` in a string stands for one byte
   deriving DecidableEq, Repr, Inhabited
 
 /-- The complete lexer: core fields plus `stream` (current input, `none` = nil) and `next`. -/
@@ -430,6 +459,24 @@ def stepFresh (s0 : LexCore) (r : Char) : Outcome LexCore :=
   else
     thenDump { s with buffer := s.buffer ++ [':'] } fun s' => stepNormal s' r
 
+/-- `startHexEscape`: `some` = the rune was x, u or U and the escape has begun. -/
+def startHexEscape (s : LexCore) (r : Char) (next : Mode) : Option LexCore :=
+  if hexEscapeLen r == 0 then none
+  else some { s with escDigits := hexEscapeLen r, escValue := 0,
+                     escByte := r == 'x' && next == .strHexEscape, state := next }
+
+/-- `hexEscapeDigit` -/
+def hexEscapeDigit (s : LexCore) (r : Char) (back : Mode) : Outcome LexCore :=
+  match hexDigitValue r with
+  | none => .err .escape s
+  | some d =>
+    let v := (s.escValue * 16 + d) % 2 ^ 32
+    let s1 := { s with escValue := v, escDigits := s.escDigits - 1 }
+    if s1.escDigits > 0 then .ok s1
+    else if s1.escByte then .ok { s1 with buffer := s1.buffer ++ [byteAsRune v], state := back }
+    else if !validRune v then .err .escape s1
+    else .ok { s1 with buffer := s1.buffer ++ [Char.ofNat v], state := back }
+
 /-- `LexNextRune` after the look-back ring has been updated. -/
 def stepMode (s : LexCore) (r : Char) : Outcome LexCore :=
   match s.state with
@@ -452,6 +499,9 @@ def stepMode (s : LexCore) (r : Char) : Outcome LexCore :=
     else if r == '"' then .ok { dumpAs s .string with state := .normal }
     else writeRune s r
   | .strEscaped =>
+    match startHexEscape s r .strHexEscape with
+    | some s' => .ok s'
+    | none =>
     match escapeChar r with
     | none => .err .escape s
     | some c => .ok { s with buffer := s.buffer ++ [c], state := .strLit }
@@ -465,9 +515,14 @@ def stepMode (s : LexCore) (r : Char) : Outcome LexCore :=
       | .err _ s2 => .ok { s2 with state := .normal }
     else writeRune s r
   | .runeEscaped =>
+    match startHexEscape s r .runeHexEscape with
+    | some s' => .ok s'
+    | none =>
     match escapeChar r with
     | none => .err .escape s
     | some c => .ok { s with buffer := s.buffer ++ [c], state := .runeLit }
+  | .strHexEscape => hexEscapeDigit s r .strLit
+  | .runeHexEscape => hexEscapeDigit s r .runeLit
   | .unquote =>
     if r == '@' then .ok { appendToken s ⟨.tildeAt, []⟩ with state := .normal }
     else if r == '(' || r == '[' || r == '{' then
@@ -492,11 +547,13 @@ def feed (o : Outcome LexCore) (rs : List Char) : Outcome LexCore :=
 def LexState.reset (_s : LexState) : LexState :=
   { state := .normal, prevrune := '\x00', tokens := [], buffer := [], prevToken := Token.zero,
     prevPrevToken := Token.zero, preBuiltinRune := '\x00', linenum := 1, priori := 0,
-    priorRune := List.replicate 20 '\x00', stream := none, next := [] }
+    priorRune := List.replicate 20 '\x00', escDigits := 0, escValue := 0, escByte := false,
+    stream := none, next := [] }
 
 /-- `Lexer.InLiteral` (added by the repair). -/
 def inLiteral (s : LexCore) : Bool :=
-  s.state == .strLit || s.state == .strEscaped || s.state == .runeLit || s.state == .runeEscaped
+  s.state == .strLit || s.state == .strEscaped || s.state == .runeLit || s.state == .runeEscaped ||
+  s.state == .strHexEscape || s.state == .runeHexEscape
 
 /-- `LexState.step`: the stream fields are untouched by `LexNextRune`. -/
 def LexState.step (s : LexState) (r : Char) : Outcome LexState :=
